@@ -25,6 +25,8 @@ C17Clauses(e) ==
   LET c == e.case  r == Ref(e) IN
   <<  <<"publishing-completes", Completed(r) /\ r.err = "">>,
       <<"no-name-of-a-living-person-in-any-file", (Completed(r) /\ Hidden(c.opts)) => NoLivingName(c.doc, r)>>,
+      <<"no-name-of-a-living-person-after-publishing-with-show",
+          (Hidden(c.opts) /\ HasRun(e, "aftershow")) => (Completed(Run(e, "aftershow")) /\ NoLivingName(c.doc, Run(e, "aftershow")))>>,
       <<"hide-site-does-not-depend-on-living-data",
           (Completed(r) /\ c.opts.living = "hide" /\ HasRun(e, "twin")) => (Completed(Run(e, "twin")) /\ FileMap(Run(e, "twin")) = FileMap(r))>>,
       <<"people-who-are-not-living-fully-published", Completed(r) => FullyPublished(c.doc, c.opts, r)>>  >>
@@ -37,7 +39,7 @@ C19Site(e) ==
       <<"every-link-resolves", Completed(r) => LinksClosed(r)>>,
       <<"same-files-again", \A k \in Others(e, {"again"}) : Completed(r) => SameAsRef(e, k)>>,
       <<"same-files-for-every-number-of-jobs", \A k \in Others(e, JobVariants) : Completed(r) => SameAsRef(e, k)>>,
-      <<"same-files-after-an-earlier-publish", \A k \in Others(e, {"prior"}) : Completed(r) => SameAsRef(e, k)>>,
+      <<"same-files-after-an-earlier-publish", \A k \in Others(e, {"prior", "aftershow"}) : Completed(r) => SameAsRef(e, k)>>,
       <<"same-files-under-the-race-detector", \A k \in Others(e, {"race"}) : Completed(r) => SameAsRef(e, k)>>,
       <<"no-data-race", \A k \in Others(e, {"race"}) : e.runs[k].races = <<>>>>  >>
 
@@ -74,7 +76,8 @@ Detail(e, clause) ==
   CASE clause = "publishing-completes" -> FirstBad(e)
     [] clause = "no-name-of-a-living-person-in-any-file" -> LeakKinds(e) \o "in " \o Groups(LeakedIn(e.case.doc, Ref(e)))
     [] clause = "hide-site-does-not-depend-on-living-data" -> IF Completed(Run(e, "twin")) THEN Groups(DiffGroups(e, "twin")) ELSE "twin run failed"
-    [] clause = "same-files-after-an-earlier-publish" -> Groups(DiffGroups(e, "prior"))
+    [] clause = "same-files-after-an-earlier-publish" ->
+         IF HasRun(e, "prior") /\ ~SameAsRef(e, CHOOSE k \in Others(e, {"prior"}) : TRUE) THEN Groups(DiffGroups(e, "prior")) ELSE "aftershow " \o Groups(DiffGroups(e, "aftershow"))
     [] clause = "no-data-race" -> RaceClasses(e)
     [] clause = "every-link-resolves" ->
          \* a link into a page group that was switched off: the target exists when every group is published
